@@ -281,7 +281,10 @@ def o_r16_buffers(case):
         bufB[...] = 2
         if not _same(r, cp):
             return 'R16:result-follows-argument:' + fn + role, 'the result of call %d changed when the argument buffer was overwritten' % (k + 1)
-        # (iv) equal content, different object
+        # (iv) equal content, different object (not inside the history: an interposed call on another object
+        # would hide an implementation that remembers its last argument)
+        if not st.get('copy'):
+            continue
         ca = np.array(a, dtype=dt).reshape(shape)
         cb = ca if same else np.array(b, dtype=dt).reshape(shape)
         if not _same(_call(fn, ca, cb, axis), want):
@@ -462,23 +465,26 @@ def buffer_histories(rng, quick):
             n = int(np.prod(shape))
             for rep in range(1 if quick else 3):
                 steps = []
-                # every entry point at least twice in one history, so that call k meets a buffer call k-1 has seen
-                order = fns + fns if rep == 0 else [rng.choice(fns) for _ in range(rng.randint(2, 4))] * 2
-                if rep == 0 and k % 2:
-                    order = [x for x in fns for _ in (0, 1)]
-                seen = set()
+                # every entry point four times in one history on the SAME array objects (roles for the binary ones:
+                # A/B, A/B, A/A, A/A), grouped or interleaved, so that call k meets buffers that call k-1 has seen
+                if rep == 0:
+                    order = [x for x in fns for _ in range(4)] if k % 2 else fns * 4
+                else:
+                    order = [rng.choice(fns) for _ in range(rng.randint(1, 3))] * rng.randint(2, 4)
+                seen = {}
+                hist_axis = [None, 0, len(shape) - 1][k % 3]
                 for fn in order:
                     bits = rng.randint(1, dts[dt])
                     st = {'fn': fn, 'a': [rng.below(1 << bits) for _ in range(n)]}
+                    seen[fn] = seen.get(fn, 0) + 1
                     if fn in ('xor', 'biterr'):
-                        # second occurrence in a history: the same array object in both roles
-                        st['same'] = fn in seen if rep == 0 else rng.chance(0.3)
-                        seen.add(fn)
+                        st['same'] = seen[fn] in (3, 4) if rep == 0 else rng.chance(0.3)
                         if not st['same']:
                             st['b'] = [rng.below(1 << bits) for _ in range(n)]
-                        if fn == 'biterr' and len(shape) >= 2 and rng.chance(0.5):
-                            st['axis'] = rng.randint(0, len(shape) - 1)
+                        if fn == 'biterr' and len(shape) >= 2 and hist_axis is not None:
+                            st['axis'] = hist_axis          # one axis per history: repeated calls look alike
                     steps.append(st)
+                steps[-1]['copy'] = True
                 out.append({'dtype': dt, 'shape': shape, 'steps': steps})
                 k += 1
     return out
